@@ -226,6 +226,10 @@ func genGob(seed uint64, tier string) *Scenario {
 	}
 	v := r.genVar(class, 0.12, true)
 	v.Dirty = 0
+	if r.chance(0.04) {
+		// precision field at the edges of uint32 (the value itself stays small)
+		v.Prec = []uint32{math.MaxUint32, math.MaxUint32 - 17, math.MaxUint32 - 18, math.MaxUint32 - 19, 1 << 31, 1<<31 - 1}[r.intn(6)]
+	}
 	sc.Vars = []VarSpec{v}
 	// an operation that produces a non-exact accuracy on the value to transmit
 	sc.Bytes = &BytesSpec{Entry: "enum", RecvPrec: r.genPrec(r.pick(1, 2, 4), true), RecvMode: uint8(r.intn(6))}
@@ -342,19 +346,23 @@ func runGob(sc *Scenario) *Outcome {
 	}
 
 	// ---- fault-free configuration ----
+	rt := sc.Clone()
+	rt.Bytes.Entry = "roundtrip"
+	rt.Bytes.Mut = nil
+	rt.Expect = nil
 	x, enc, err := transmitted(sc)
 	if err != nil {
-		return viol("encode-error", "GobEncode failed: "+err.Error(), nil)
+		return viol("encode-error", "GobEncode failed: "+err.Error(), rt)
 	}
 	xo := observe(x)
 	out.Ops++
 	{
 		var z decimal.Decimal
 		if err := z.GobDecode(enc); err != nil {
-			return viol("roundtrip", fmt.Sprintf("decoding the encoding of %s failed: %v", xo, err), single(enc, nil, 0, 0, false))
+			return viol("roundtrip", fmt.Sprintf("decoding the encoding of %s failed: %v", xo, err), rt)
 		}
 		if zo := observe(&z); zo.String()+zo.Digits != xo.String()+xo.Digits {
-			return viol("roundtrip", fmt.Sprintf("round trip into a zero value changed the Decimal:\n  sent     %s\n  received %s", xo, zo), single(enc, nil, 0, 0, false))
+			return viol("roundtrip", fmt.Sprintf("round trip into a zero value changed the Decimal:\n  sent     %s\n  received %s", xo, zo), rt)
 		}
 		out.Counters["roundtrip_zero_receiver"]++
 	}
@@ -367,13 +375,13 @@ func runGob(sc *Scenario) *Outcome {
 			}
 			z.SetMode(decimal.RoundingMode(bs.RecvMode)).SetPrec(uint(bs.RecvPrec))
 			if err := z.GobDecode(enc); err != nil {
-				return viol("roundtrip", fmt.Sprintf("decoding the encoding of %s failed: %v", xo, err), single(enc, nil, bs.RecvPrec, bs.RecvMode, laden))
+				return viol("roundtrip", fmt.Sprintf("decoding the encoding of %s failed: %v", xo, err), rt)
 			}
 			want := new(decimal.Decimal).SetMode(decimal.RoundingMode(bs.RecvMode)).SetPrec(uint(bs.RecvPrec)).Set(x)
 			zo, wo := observe(z), observe(want)
 			if zo.String()+zo.Digits != wo.String()+wo.Digits {
 				return viol("roundtrip-rounded", fmt.Sprintf("decoding into a receiver with prec=%d mode=%d:\n  sent     %s\n  received %s\n  expected %s (receiver's precision and mode kept, value rounded once)", bs.RecvPrec, bs.RecvMode, xo, zo, wo),
-					single(enc, nil, bs.RecvPrec, bs.RecvMode, laden))
+					rt)
 			}
 			out.Counters["roundtrip_preset_receiver"]++
 		}
@@ -382,17 +390,21 @@ func runGob(sc *Scenario) *Outcome {
 	{
 		var buf bytes.Buffer
 		if err := gob.NewEncoder(&buf).Encode(x); err != nil {
-			return viol("roundtrip-stream", "gob.Encoder failed: "+err.Error(), nil)
+			return viol("roundtrip-stream", "gob.Encoder failed: "+err.Error(), rt)
 		}
 		var z decimal.Decimal
 		rd := &faultyReader{data: buf.Bytes(), chunk: bs.Chunk}
 		if err := gob.NewDecoder(rd).Decode(&z); err != nil {
-			return viol("roundtrip-stream", fmt.Sprintf("gob stream round trip of %s failed: %v", xo, err), nil)
+			return viol("roundtrip-stream", fmt.Sprintf("gob stream round trip of %s failed: %v", xo, err), rt)
 		}
 		if zo := observe(&z); zo.String()+zo.Digits != xo.String()+xo.Digits {
-			return viol("roundtrip-stream", fmt.Sprintf("gob stream round trip changed the Decimal:\n  sent     %s\n  received %s", xo, zo), nil)
+			return viol("roundtrip-stream", fmt.Sprintf("gob stream round trip changed the Decimal:\n  sent     %s\n  received %s", xo, zo), rt)
 		}
 		out.Counters["roundtrip_gob_stream"]++
+	}
+
+	if bs.Entry == "roundtrip" {
+		return finish()
 	}
 
 	// ---- systematic single-fault enumeration ----
